@@ -14,8 +14,23 @@ FLOW_SIZES = [(6,), (10,)]
 
 
 def observe(job):
-    t, size, max_press, max_move, seed = job
-    return wtree.observe_geometry(t, "utf8", size, max_press, max_move, seed)
+    t, size, max_press, max_move, seed, max_steps = job
+    return wtree.observe_geometry(t, "utf8", size, max_press, max_move, seed, max_steps)
+
+
+CURSOR_LEAVES = ("TEdit",)
+
+
+def is_cursor_leaf(t):
+    """A leaf that takes part in the whole cursor protocol (selectable, shows a cursor, implements move_cursor_to_coords)."""
+    return t["k"] in CURSOR_LEAVES or (t["k"] == "Probe" and t["o"][4] == 1 and t["o"][5] != "nocursor")
+
+
+def stratum(t):
+    """Sampling stratum of a depth<=1 term: root kind x (two or more cursor leaves side by side) x (no gap between the children)."""
+    many = sum(1 for x in t["c"] if is_cursor_leaf(x)) >= 2
+    gap = {"Columns": lambda o: o[0], "GridFlow": lambda o: o[1]}.get(t["k"], lambda o: 1)(t["o"])
+    return (t["k"], many, gap == 0)
 
 
 def sizes_for(t):
@@ -77,6 +92,7 @@ def _handle(chk, traces, res):
         r0 = tr["ev"][0]
         subs = list(c01.sub(tr["term"]))
         sig = {"root": tr["term"]["k"], "event": e["t"], "mode": ("fixed", "flow", "box")[len(tr["size"])], "exc": e.get("exc", "") or e.get("gcc_exc", "")}
+        sig["step"] = (e["op"] + ":" + e["key"]) if e["t"] == "step" else ""
         if e["t"] in ("press", "move"):
             pid = r0["grid"][e["row"]][e["col"]]
             on = set(path_to(tr["term"], pid) or ())
@@ -98,7 +114,7 @@ def _handle(chk, traces, res):
         verdict = chk.reject(f"C09.{why}", sig, {"term": tr["term"], "show": wtree.show(tr["term"]), "size": tr["size"], "event_index": l, "observed": obs,
                                                  "grid": ["".join(chr(64 + v) if v else "." for v in r) for r in r0["grid"]],
                                                  "leaves": [{k: v for k, v in lf.items() if k != "acc"} for lf in r0["leaves"]],
-                                                 "max_press": tr["max_press"], "max_move": tr["max_move"], "seed": tr["seed"]})
+                                                 "max_press": tr["max_press"], "max_move": tr["max_move"], "seed": tr["seed"], "max_steps": tr["max_steps"]})
         if verdict == "known" and l < len(tr["ev"]):
             rest = dict(tr)
             rest["ev"] = [dict(r0, skipcur=1), *tr["ev"][max(l, 1):]]
@@ -118,15 +134,24 @@ def validate_all(chk, good, jobs, name="TV_GeometryTrace"):
 def run(chk):
     quick = chk.tier == "quick"
     rng = chk.rng
-    d1 = c01.enumerate_terms(chk, "GEN_geom_depth1", profile="tiny" if quick else "rep", leaf="probe", d=1, kids=2, sib=0, nodes=8, kinds="geom")
+    with cf.ThreadPoolExecutor(2) as ex:        # the enumeration overlaps the simulation (independent TLC runs)
+        f_d1 = ex.submit(c01.enumerate_terms, chk, "GEN_geom_depth1", workers=3, profile="tiny" if quick else "rep", leaf="probe", d=1, kids=2, sib=0, nodes=8, kinds="geom")
+        if quick:
+            f_sims = ex.submit(c01.simulate_terms, chk, 300, chk.seed, 8, 3, profile="full", leaf="probe", d=3, kids=3, sib=2, nodes=9, kinds="geom")
+        else:
+            f_sims = ex.submit(c01.simulate_terms, chk, 5000, chk.seed, 9, 5, profile="full", leaf="probe", d=4, kids=3, sib=3, nodes=11, kinds="geom")
+        d1, sims = f_d1.result(), f_sims.result()
     if quick:
-        d1_run = c01.stratified(rng, d1, 45, {})
-        sims = c01.simulate_terms(chk, 300, chk.seed, 8, 4, profile="full", leaf="probe", d=3, kids=3, sib=2, nodes=9, kinds="geom")
-        max_press, max_move = 24, 10
+        by = {}
+        for t in d1:
+            by.setdefault(stratum(t), []).append(t)
+        d1_run = []
+        for key in sorted(by):
+            d1_run += rng.sample(by[key], min(len(by[key]), 22 if key[1] else 30))
+        max_press, max_move, max_steps = 20, 12, 5
     else:
         d1_run = d1
-        sims = c01.simulate_terms(chk, 5000, chk.seed, 9, 8, profile="full", leaf="probe", d=4, kids=3, sib=3, nodes=11, kinds="geom")
-        max_press, max_move = 60, 24
+        max_press, max_move, max_steps = 60, 24, 12
     terms = [wtree.renumber(t) for t in d1_run + sims if any(k in wtree.TAGGED_KINDS for k in wtree.kinds(t))]
     chk.note(f"terms: depth<=1 {len(d1_run)}/{len(d1)}, simulated {len(sims)}")
     jobs = []
@@ -135,12 +160,12 @@ def run(chk):
         if quick and len(szs) > 3:
             szs = rng.sample(szs, 3)
         for size in szs:
-            jobs.append((t, size, max_press, max_move, chk.seed * 7919 + i))
+            jobs.append((t, size, max_press, max_move, chk.seed * 7919 + i, max_steps))
     procs = 4 if quick else 8
     with cf.ProcessPoolExecutor(procs) as ex:
         traces = list(ex.map(observe, jobs, chunksize=max(1, len(jobs) // (procs * 8))))
     for tr, j in zip(traces, jobs):
-        tr["max_press"], tr["max_move"], tr["seed"] = j[2], j[3], j[4]
+        tr["max_press"], tr["max_move"], tr["seed"], tr["max_steps"] = j[2], j[3], j[4], j[5]
     good = [tr for tr in traces if tr["ev"]]
     validate_all(chk, good, 4 if quick else 8)
     _coverage(chk, traces, good)
@@ -170,7 +195,24 @@ def _coverage(chk, traces, good):
         if r0["rcur"]:
             bump("cursor_compared")
         ids = {lf["id"]: lf for lf in r0["leaves"]}
+        prev = r0
+        for si, e in enumerate(tr["ev"][1:]):
+            if e["t"] != "step":
+                continue
+            bump("step." + e["op"])
+            if fits_py(e):
+                bump("step_judged")
+                if e["op"] == "key" and e["handled"]:
+                    bump("step_judged.key_handled")
+                if e["rcur"] and prev["rcur"] and e["rcur"] != prev["rcur"]:
+                    bump("step_judged.cursor_moved")
+                    if "ListBox" in ks:
+                        bump("step_judged.cursor_moved_inside_ListBox")
+                nontriv.add((json.dumps(tr["term"]), tuple(tr["size"]), "s", si, e["op"] + e["key"]))
+            prev = e
         for e in tr["ev"][1:]:
+            if e["t"] == "step":
+                continue
             pid = r0["grid"][e["row"]][e["col"]]
             lf = ids.get(pid)
             if not lf or lf["bg"]:
@@ -181,6 +223,12 @@ def _coverage(chk, traces, good):
             elif lf["sel"] and lf["cursor"]:
                 bump("move_on_cursor_leaf")
                 bump("move_accepted" if e["ret"] else "move_refused")
+                own = [(x, y) for y, r in enumerate(r0["grid"]) for x, v in enumerate(r) if v == pid]
+                if (e["col"], e["row"]) in {(f(x for x, _ in own), g(y for _, y in own)) for f in (min, max) for g in (min, max)}:
+                    bump("move_on_corner_of_leaf_area")
+                    if any(0 <= e["col"] + dx < len(r0["grid"][0]) and ids.get(r0["grid"][e["row"]][e["col"] + dx], {"cursor": 0})["cursor"]
+                           and r0["grid"][e["row"]][e["col"] + dx] != pid for dx in (-1, 1)):
+                        bump("move_on_cell_touching_another_cursor_leaf")
                 nontriv.add((json.dumps(tr["term"]), tuple(tr["size"]), "m", e["col"], e["row"]))
                 if lf["kind"] != "Probe":
                     bump("move_on_real_" + lf["kind"])
@@ -188,9 +236,13 @@ def _coverage(chk, traces, good):
     chk.cov["distinct_nontrivial"] = len(nontriv)
     chk.cov["rule"] = ("terms enumerated by TLC from spec/WidgetTree.tla with probe / tagged Edit / tagged SelectableIcon leaves under Padding, Filler, LineBox, AttrMap, "
                        "BoxAdapter, Pile, Columns, Frame, Overlay, GridFlow, ListBox (all well-formed depth<=1 terms, TLC-simulated deeper ones); each at box/flow/fixed "
-                       "sizes of every mode it reports; non-trivial = distinct (term, size, cell) press or move events on a foreground leaf at a size satisfying the fit precondition")
+                       "sizes of every mode it reports; move cells: corners of the leaves' areas first, then random; then a history of keys / application cursor moves, "
+                       "the reported cursor taken before the next rendering; non-trivial = distinct (term, size, cell) press or move events on a foreground leaf "
+                       "and judged history steps at a size satisfying the fit precondition")
     chk.cov["exhaustive"] = True
-    for need in ("size_fits", "cursor_compared", "press_on_leaf", "move_accepted", "move_refused", "move_on_real_TEdit") + tuple(
+    for need in ("size_fits", "cursor_compared", "press_on_leaf", "move_accepted", "move_refused", "move_on_real_TEdit", "move_on_corner_of_leaf_area",
+                 "move_on_cell_touching_another_cursor_leaf", "step.key", "step.setpos", "step.probecur", "step_judged", "step_judged.key_handled",
+                 "step_judged.cursor_moved", "step_judged.cursor_moved_inside_ListBox") + tuple(
             "fit.kind." + k for k in ("Pile", "Columns", "Frame", "Overlay", "GridFlow", "ListBox", "Padding", "Filler", "LineBox", "AttrMap", "BoxAdapter")):
         if not cc.get(need):
             chk.vacuity.append("driver." + need)
@@ -203,8 +255,12 @@ def _coverage(chk, traces, good):
     chk.assumptions += [
         "fit precondition (computed in TLA+): every foreground leaf was rendered and is painted as one full rectangle of the size it was rendered at; sizes that do not fit are skipped",
         "leaves below an Overlay are covered on purpose and are never judged; cells where no leaf is painted (padding, dividers, borders) are not judged",
-        "move_cursor_to_coords is judged only on cells painted by a selectable leaf that implements the cursor protocol; the leaf's own answer for each of its cells is asked on a separate copy",
+        "move_cursor_to_coords is judged only on cells painted by a selectable leaf that implements the cursor protocol; the leaf's own answer for each of its cells "
+        "(accepts or not, and where it then shows its cursor) is asked on a separate copy rendered at the same size with the same focus flag",
+        "after an accepted move the reported cursor must be the one the leaf drawn at the cell chose for the translated cell (the statement's 'on the requested row' "
+        "read together with 'delivered to the child drawn there'): the leaf asked is the leaf drawn at the cell and no other leaf accepted anything",
         "each press / move is applied to a copy of the widget in its freshly rendered state (a press may move the focus, which C08 covers)",
+        "histories (keys, set_edit_pos, a probe moving its cursor) run on one copy in the rendered state with the last frame held; a key that raises ends the history unjudged (what a key does is C08's)",
         "Scrollable/ScrollBar geometry is C20's; WidgetDisable removes selectability and is not part of the cursor protocol chain",
     ]
 
@@ -212,8 +268,8 @@ def _coverage(chk, traces, good):
 def replay(chk, path):
     with open(path) as f:
         rp = json.load(f)["replay"]
-    tr = observe((rp["term"], tuple(rp["size"]), rp["max_press"], rp["max_move"], rp["seed"]))
-    tr["max_press"], tr["max_move"], tr["seed"] = rp["max_press"], rp["max_move"], rp["seed"]
+    tr = observe((rp["term"], tuple(rp["size"]), rp["max_press"], rp["max_move"], rp["seed"], rp.get("max_steps", 0)))
+    tr["max_press"], tr["max_move"], tr["seed"], tr["max_steps"] = rp["max_press"], rp["max_move"], rp["seed"], rp.get("max_steps", 0)
     if not tr["ev"]:
         chk.note("term no longer renders")
         return chk.finish()
